@@ -91,14 +91,28 @@ def run(ctx):
     s_ = ctx.need_fn("E3.sides", "BlsTimeCrypt::seal")
     if s_ is not None and u is not None:
         se, ue = evaluate(s_), evaluate(u)
+        class _H:
+            pass
+
         def rinput(ev):
-            hs = [x for x in ev.sites.values() if x.callee[0] == "HashToScalar::hash_to_scalar"]
+            # hash_to_scalar calls of the function itself and of the crate helpers its result goes through
+            roots = [ev.ret] + [fl for _, _, fl in R.ctoption_sites(P, ev.fn)] + [a for x in ev.sites.values() for a in x.args]
+            seen = set()
             outs = []
-            for h in hs:
-                segs = B.nf(ev, inline(P, h.args[0], 2, only=K.local_inliner(P)))
-                st = B.peel(h.args[1])
-                salt = bytes.fromhex(st.a[2].a[1]).decode("latin-1") if st.op == "named" and st.a[2].op == "const" else None
-                outs.append((segs, salt, h))
+            for rt in roots:
+                for c in subterms(inline(P, rt, 2, only=K.local_inliner(P))):
+                    if c.op != "call" or B.cname(c) != "HashToScalar::hash_to_scalar" or len(c.a[1]) != 2:
+                        continue
+                    key = strip_sites(c)
+                    if key in seen:
+                        continue
+                    seen.add(key)
+                    segs = B.nf(ev, inline(P, c.a[1][0], 2, only=K.local_inliner(P)))
+                    st = B.peel(c.a[1][1])
+                    salt = bytes.fromhex(st.a[2].a[1]).decode("latin-1") if st.op == "named" and st.a[2].op == "const" else None
+                    h = _H()
+                    h.args = c.a[1]
+                    outs.append((segs, salt, h))
             return outs
         so, uo = rinput(se), rinput(ue)
         # seal: alpha = H(rng), r = H(repr(alpha) ‖ Sha256(M)); unseal: r = H(alpha' ‖ Sha256(M'))
